@@ -13,8 +13,9 @@ import os
 import subprocess
 import sys
 
-WT = "/tmp/scratch/matrix_wt"
-EV = "/tmp/scratch/matrix_ev"
+HOME = os.environ.get("KV_VERIF_HOME", "/verif")  # a snapshot copy of /verif may be used so that edits do not disturb a long run
+WT = os.environ.get("KV_MATRIX_WT", "/tmp/scratch/matrix_wt")
+EV = WT + "_ev"
 
 
 def sh(cmd, cwd=None):
@@ -23,7 +24,7 @@ def sh(cmd, cwd=None):
 
 
 def run_check(pid):
-    rc, out = sh(f"./check {pid} --root {WT} --evidence-dir {EV}/{pid} --no-selftest", cwd="/verif")
+    rc, out = sh(f"./check {pid} --root {WT} --evidence-dir {EV}/{pid} --no-selftest", cwd=HOME)
     rules = sorted({l.split("rule ")[1].split()[0] for l in out.splitlines() if l.startswith(f"[{pid}] rule ")})
     return pid, rc, rules
 
@@ -36,14 +37,14 @@ def main():
             print(o)
             return 2
     head = sh("git -C /repo rev-parse HEAD")[1].strip()
-    man = json.load(open("/verif/MANIFEST.json"))
+    man = json.load(open(f"{HOME}/MANIFEST.json"))
     pids = [c["property_id"] for c in man["checks"]]
-    seeds = sys.argv[1:] or sorted(d for d in os.listdir("/verif/seeded") if os.path.isdir(f"/verif/seeded/{d}"))
+    seeds = sys.argv[1:] or sorted(d for d in os.listdir(f"{HOME}/seeded") if os.path.isdir(f"{HOME}/seeded/{d}"))
     matrix = {}
-    if os.path.exists("/verif/seeded/MATRIX.json"):
-        matrix = json.load(open("/verif/seeded/MATRIX.json")).get("seeds", {})
+    if os.path.exists(f"{HOME}/seeded/MATRIX.json"):
+        matrix = json.load(open(f"{HOME}/seeded/MATRIX.json")).get("seeds", {})
     for sd in seeds:
-        patch = f"/verif/seeded/{sd}/patch.diff"
+        patch = f"{HOME}/seeded/{sd}/patch.diff"
         sh(f"git checkout -q --detach {head} && git reset -q --hard && git clean -fdq", cwd=WT)
         rc, o = sh(f"git apply {patch}", cwd=WT)
         if rc:
@@ -57,7 +58,7 @@ def main():
         matrix[sd] = {"applies": True, "caught_by": caught, "exit2": exit2}
         own = sd.split("-")[0]
         print(f"{sd}: caught by {sorted(caught)} {'(own check fires)' if own in caught else '(OWN CHECK SILENT)' if own not in exit2 else '(own check: no verdict)'}; exit2 {exit2}")
-        mp = f"/verif/seeded/{sd}/meta.json"
+        mp = f"{HOME}/seeded/{sd}/meta.json"
         if os.path.exists(mp):
             m = json.load(open(mp))
             m["caught_by"] = caught
@@ -65,7 +66,7 @@ def main():
             m["matrix_repo_head"] = head
             json.dump(m, open(mp, "w"), indent=1)
     sh(f"git reset -q --hard && git clean -fdq", cwd=WT)
-    json.dump({"repo_head": head, "checks": pids, "seeds": matrix}, open("/verif/seeded/MATRIX.json", "w"), indent=1, sort_keys=True)
+    json.dump({"repo_head": head, "checks": pids, "seeds": matrix}, open(f"{HOME}/seeded/MATRIX.json", "w"), indent=1, sort_keys=True)
     return 0
 
 
